@@ -286,8 +286,8 @@ def gen_C04(tier, rng):
     for _ in range(80 if tier == "quick" else 1500):
         r = rng.randint(1, 6)
         while True:
-            out = [rng.choice([1, 2, 3, 4, 5, 7, 8, 9, 12, 16, 17]) for _ in range(r)]
-            if prod(out) <= 1500:
+            out = [rng.choice([1, 2, 3, 4, 5, 7, 8, 9, 12, 15, 16, 17, 31, 32, 33, 64, 65]) for _ in range(r)]
+            if prod(out) <= 3000:
                 break
         def big_operand():
             rr = rng.randint(1, r)
@@ -418,9 +418,9 @@ def gen_C05(tier, rng):
                     cases.append(case("mm_refuse", ins, "refuse:inner"))
     # larger sizes than the grid: up to 11 x 13 x 9, leading dimensions up to 4 x 5, integer data (exact)
     for _ in range(50 if tier == "quick" else 800):
-        rows, inner, cols = rng.randint(1, 11), rng.randint(1, 13), rng.randint(1, 9)
+        rows, inner, cols = rng.randint(1, 11), rng.choice([1, 2, 3, 5, 7, 8, 9, 13, 16, 17, 19]), rng.randint(1, 9)
         ta, tb = rng.random() < 0.5, rng.random() < 0.5
-        out_lead = [rng.randint(1, 5) for _ in range(rng.randint(0, 2))]
+        out_lead = [rng.randint(1, 6) for _ in range(rng.randint(0, 3))]
         def lead_big():
             r = rng.randint(0, len(out_lead))
             return [d if rng.random() < 0.6 else 1 for d in out_lead[len(out_lead) - r:]]
@@ -506,10 +506,10 @@ def gen_C06(tier, rng):
     cases = [conv_case(rng, *g) for g in grid]
     # larger geometry than the grid: images up to 9 x 11, filters up to 4 x 5, strides up to 4, depth/count up to 3
     for _ in range(40 if tier == "quick" else 600):
-        rows, cols = rng.randint(3, 9), rng.randint(3, 11)
-        fr, fc = rng.randint(1, min(4, rows)), rng.randint(1, min(5, cols))
-        cases.append(conv_case(rng, rng.choice([[], [3], [2, 3], [1, 2]]), rng.randint(1, 3), rng.randint(1, 3),
-                               rows, cols, fr, fc, rng.randint(1, 4), rng.randint(1, 4)))
+        rows, cols = rng.randint(3, 13), rng.randint(3, 14)
+        fr, fc = rng.randint(1, min(5, rows)), rng.randint(1, min(6, cols))
+        cases.append(conv_case(rng, rng.choice([[], [3], [2, 3], [1, 2]]), rng.randint(1, 5), rng.randint(1, 5),
+                               rows, cols, fr, fc, rng.randint(1, 6), rng.randint(1, 6)))
         cases[-1]["cls"] = "large:" + cases[-1]["cls"]
     for _ in range(60 if tier == "quick" else 1500):
         rows, cols = rng.randint(1, 7), rng.randint(1, 7)
@@ -787,6 +787,31 @@ def gen_C01(tier, rng):
         if mag < 2 ** 50:
             c = graph_case("readme", b, root, None, "control_flow")
             cases.append(add_tangents(c, rng))
+    # (vi) wide fan-out (one array with many consumers), long chains and graphs with many nodes
+    for fan in ((9, 17, 40) if tier == "quick" else (9, 12, 17, 33, 40, 64, 100)):
+        b = randprog.Builder(rng, exact=True)
+        x = b.leaf([2], tracked=True, values=[1.0, 2.0])
+        y = b.leaf([2], tracked=True, values=[3.0, -1.0])
+        terms = []
+        for j in range(fan):
+            k = ("mul",) if j % 3 == 0 else (("add",) if j % 3 == 1 else ("sub",))
+            terms.append(b.result(k, [x, y] if j % 2 else [y, x], [2], False, True, 0))
+        cur = terms[0]
+        for t in terms[1:]:
+            cur = b.result(("add",), [cur, t], [2], False, True, 0)
+        c = graph_case("fanout", b, cur, b.seed_for(cur, "int"), "wide:fanout")
+        cases.append(add_tangents(c, rng))
+    for depth in ((70, 150, 260) if tier == "quick" else (70, 100, 150, 200, 260, 400)):
+        b = randprog.Builder(rng, exact=True)
+        x = b.leaf([2], tracked=True, values=[1.0, -2.0])
+        w = b.leaf([2], tracked=True, values=[1.0, 1.0])
+        cur = x
+        for j in range(depth):
+            cur = b.result(("neg",), [cur], [2], False, True, 0) if j % 2 else \
+                b.result(("mul",), [cur, w], [2], False, True, 0)
+        root = b.result(("add",), [cur, x], [2], False, True, 0)
+        c = graph_case("deepchain", b, root, b.seed_for(root, "int"), "deep:chain")
+        cases.append(add_tangents(c, rng))
     # (v) deep chains of self-products (2^depth paths)
     for depth in (10, 20, 30):
         b = randprog.Builder(rng, exact=True)
@@ -1650,6 +1675,16 @@ def gen_C10(tier, rng):
                 cands = [v for v in ops if rng.random() < 0.5]
                 if cands:
                     h.drop(cands[0])
+        if n % 10 == 0:
+            # a long run of passes on the same few nodes (accumulation far beyond a handful of passes)
+            ops = [v for v in h.live_vars() if v.is_op]
+            for _ in range(rng.randint(12, 30)):
+                if not ops:
+                    break
+                root = rng.choice(ops[:3])
+                passes.append(h.emit(("backward", root.idx, h.seed_for(root))))
+            h.observe_grads(lambda v: v.leaf or v.is_op)
+            h.probe_all()
         if not passes:
             ops = [v for v in h.live_vars() if v.is_op]
             if not ops:
@@ -2055,9 +2090,10 @@ def ref_loss(cost, out, od, target):
 
 def model_case(rng, tier):
     kind = rng.choice(["dense", "dense", "dense", "conv"])
+    big = rng.random() < 0.12      # occasionally: wider layers, larger batches, longer runs
     layers = []
     if kind == "dense":
-        sizes = [rng.randint(1, 3) for _ in range(rng.randint(2, 4))]
+        sizes = [rng.randint(1, 3) if not big else rng.choice([4, 8, 9, 11]) for _ in range(rng.randint(2, 4))]
         n_layers = len(sizes) - 1
         cost = rng.choice(["mse", "ce"])
         for j in range(n_layers):
@@ -2069,7 +2105,7 @@ def model_case(rng, tier):
             nin, nout = sizes[j], sizes[j + 1]
             layers.append(("dense", nin, nout, act, [rng.uniform(-1, 1) for _ in range(nin * nout)],
                            [rng.uniform(-0.5, 0.5) for _ in range(nout)]))
-        batches = [[], [1], [3], [2], [2, 2], [2, 3], [3, 2], [1, 3]]
+        batches = [[], [1], [3], [2], [2, 2], [2, 3], [3, 2], [1, 3]] + ([[8], [9], [16]] if big else [])
         feat = [sizes[0]]
     else:
         cost = rng.choice(["mse", "mse", "ce"])
@@ -2090,12 +2126,12 @@ def model_case(rng, tier):
                            [rng.uniform(-1, 1) for _ in range(count * d * fr * fc)],
                            [rng.uniform(-0.5, 0.5) for _ in range(count)]))
             d, r, c = count, (r - fr) // sr + 1, (c - fc) // sc + 1
-    lr = rng.choice([0.1, 0.5, 0.01, 1.0])
+    lr = rng.choice([0.1, 0.5, 0.01, 1.0]) if not big else rng.choice([0.01, 0.05])
     ins = [("model", layers, cost, lr)]
     params0 = []
     for l in layers:
         params0 += [list(l[4]), list(l[5])]
-    iters = rng.randint(1, 4)
+    iters = rng.randint(1, 4) if not big else rng.randint(6, 12)
     # the batch shape is fixed for the run in half of the cases and changes from iteration to iteration
     # (unbatched / different batch sizes, any order) in the other half
     fixed = rng.choice(batches)
@@ -2204,7 +2240,11 @@ def post_formulas(cases, rust, model):
         for it in meta["iters"]:
             params = [p[2] for p in obs_params(r[pidx])]
             info = {}
-            out, od = ref_forward(layers, params, it["x"], it["xd"], info)
+            try:
+                out, od = ref_forward(layers, params, it["x"], it["xd"], info)
+                ref = ref_loss(meta["cost"], out, od, it["t"])
+            except (OverflowError, ValueError, ZeroDivisionError):
+                break      # the run left the range where the reference formulas can be evaluated
             n += 1
             fo = r[it["forward"]][0]
             if list(fo[1][1:]) != od or not all(approx(a, b, 1e-9) for a, b in zip(fo[2], out)):
@@ -2213,7 +2253,6 @@ def post_formulas(cases, rust, model):
                                         "values %s" % (fo[1][1:], fo[2][:6], od, out[:6])})
                 break
             loss = r[it["loss"]][0][2][0]
-            ref = ref_loss(meta["cost"], out, od, it["t"])
             if not approx(loss, ref, 1e-9):
                 fails.append({"case": i, "confirmed": True,
                               "reason": "Model::backward returned %r; the sum of the cost array is %r" % (loss, ref)})
@@ -2238,8 +2277,11 @@ def post_train_step(cases, rust, model):
             after = obs_params(r[it["params_after"]])
             params = [list(p[2]) for p in before]
             info = {}
-            ref_forward(layers, params, it["x"], it["xd"], info)
             pidx = it["params_after"]
+            try:
+                ref_forward(layers, params, it["x"], it["xd"], info)
+            except (OverflowError, ValueError, ZeroDivisionError):
+                break
             if info.get("min_preact", 1.0) < 1e-3:
                 continue      # too close to the kink of relu for finite differences
             n += 1
@@ -2253,12 +2295,16 @@ def post_train_step(cases, rust, model):
                 for e in range(len(params[pj])):
                     hstep = 1e-5
                     keep = params[pj][e]
-                    params[pj][e] = keep + hstep
-                    o1, od = ref_forward(layers, params, it["x"], it["xd"], {})
-                    l1 = ref_loss(meta["cost"], o1, od, it["t"])
-                    params[pj][e] = keep - hstep
-                    o2, od = ref_forward(layers, params, it["x"], it["xd"], {})
-                    l2 = ref_loss(meta["cost"], o2, od, it["t"])
+                    try:
+                        params[pj][e] = keep + hstep
+                        o1, od = ref_forward(layers, params, it["x"], it["xd"], {})
+                        l1 = ref_loss(meta["cost"], o1, od, it["t"])
+                        params[pj][e] = keep - hstep
+                        o2, od = ref_forward(layers, params, it["x"], it["xd"], {})
+                        l2 = ref_loss(meta["cost"], o2, od, it["t"])
+                    except (OverflowError, ValueError, ZeroDivisionError):
+                        params[pj][e] = keep
+                        continue
                     params[pj][e] = keep
                     g = (l1 - l2) / (2 * hstep)
                     step = after[pj][2][e] - before[pj][2][e]
